@@ -581,9 +581,12 @@ POSITIONS: dict[str, dict] = {
 }
 def sites_for(pos: str, t: str) -> list[int]:
     """model sites fed by a position; the enum-typed default becomes an identifier: for non-ASCII text the model takes
-    Python's str.upper/str.isidentifier verdict (18 = identifier, 19 = not) instead of computing it (17)"""
+    Python's own verdict on `C.<TEXT.upper()>` (18 = one attribute name, 19 = not) instead of computing it (17)"""
     if pos == "enumdefault" and not t.isascii():
-        return [18 if t.upper().replace("-", "_").replace(" ", "_").isidentifier() else 19]
+        m = _parse_ok("X = C." + t.upper().replace("-", "_").replace(" ", "_") + "\n")
+        good = m is not None and len(m.body) == 1 and isinstance(m.body[0], ast.Assign) and isinstance(m.body[0].value, ast.Attribute) \
+            and isinstance(m.body[0].value.value, ast.Name)
+        return [18 if good else 19]
     return POSITIONS[pos]["sites"]
 
 
@@ -691,8 +694,8 @@ def c_pipe_case(case: dict) -> str:
 NAME_KINDS = {"propname": 1, "qname": 1, "hname": 1, "pathvar": 1, "opid": 1, "tag": 2, "schemaname": 3}
 NAMES = ['$', '_', '\u00e9', '\U0001f600', '\u00b2', 'area_m\u00b2', '\u00bd', '\u2460x', '1st', '9', 'class', 'None', 'import', 'a b',
          'a-b', 'a.b', 'gr\u00f6\u00dfe', '\u540d\u524d', 'x\u00b2', 'user id', 'Global', 'def', 'a_b', 'aB', 'ab', 'true', '__x__', 'A',
-         'lambda', '3d', 'x\u0301', 'm\u00b3_per_h', 'half\u00bd', 'n\u2460', 'a"b', "it's", 'x y-z.w', '\u0661\u0662', '\ufb01le', '\uff21b']
-NAME_ALPHA = list("abzAZ019_-. $\"'") + ['\u00e9', '\u00df', '\u540d', '\u00b2', '\u00b3', '\u00bd', '\u2460', '\u0661', '\U0001f600', '\u0301']
+         'lambda', '3d', 'x\u0301', 'm\u00b3_per_h', 'half\u00bd', 'n\u2460', "it's", 'x y-z.w', '\u0661\u0662', '\ufb01le', '\uff21b']
+NAME_ALPHA = list("abzAZ019_-. $'") + ['\u00e9', '\u00df', '\u540d', '\u00b2', '\u00b3', '\u00bd', '\u2460', '\u0661', '\U0001f600', '\u0301']
 _TAKEN = {"id", "body", "files", "form_data", "bytes_content", "self", "name", "note", "color", "pet", "bag", "uid", "content_type",
           "d_int", "d_num", "d_bool", "d_arr", "d_obj", "d_none", "d_inlenum", "d_allof", "zqqname", "zqhname", "zqpropname",
           "item", "cat", "dog", "item_d_obj", "item_d_none", "item_d_inlenum", "item_d_allof", "get_item", "put_item", "set_item"}
@@ -706,6 +709,10 @@ def name_usable(pos: str, name: str) -> bool:
         c = NameSanitizer.sanitize_class_name(name)
     except Exception:  # noqa: BLE001
         return True
+    # the name also reaches raw text sites (dict keys, Meta keys, docstrings): those are the F15 sites exercised by run_pipe;
+    # here the text must be harmless for them so that only the DERIVED IDENTIFIER is being judged
+    if any(ch in '"\\' or not ch.isprintable() for ch in name):
+        return False
     return m.lower() not in _TAKEN and c.lower() not in _TAKEN and c.lower() + "client" not in _TAKEN
 
 
